@@ -28,6 +28,7 @@ import (
 	"verif/harness/c03"
 	"verif/harness/c12"
 	"verif/harness/c13"
+	"verif/harness/c14"
 	"verif/harness/c17"
 	"verif/harness/hk"
 	"verif/harness/udpx"
@@ -289,6 +290,14 @@ func all(tier string) (sets []*engine.Scenario, bounds []int) {
 		// after Close has returned that still delivers; one connection or datagram delivered twice)
 		addS(racesAnd(sc, "call-after-close", "delivered-twice"), b(2, 3))
 	}
+	for _, sc := range c14.RaceScenarios() {
+		sc.Name = "association-" + sc.Name
+		// a second datagram racing the DNS answer that fast-closes the association: in every sequential
+		// order either the answer closes it first (the datagram opens a new one) or the datagram
+		// keeps it alive; a deadline that was extended by the datagram and then moved back by the
+		// answer is the result of neither
+		addS(racesAndAs(sc, "not-linearizable{association:", "deadline-moved-earlier"), b(3, 3))
+	}
 	for _, sc := range c13.RaceScenarios() {
 		sc.Name = "listen-close-" + sc.Name
 		addS(racesOnly(sc), b(2, 3))
@@ -327,6 +336,10 @@ func all(tier string) (sets []*engine.Scenario, bounds []int) {
 // racesAnd keeps, besides the races, those findings of the scenario's own oracle that say the
 // result equals no sequential order of the calls.
 func racesAnd(sc *engine.Scenario, sigs ...string) *engine.Scenario {
+	return racesAndAs(sc, "not-linearizable{listeners:", sigs...)
+}
+
+func racesAndAs(sc *engine.Scenario, prefix string, sigs ...string) *engine.Scenario {
 	inner := sc.Check
 	sc.Check = func(x *vrt.Exec) (string, bool, []*engine.Finding) {
 		obs, nt, fs := inner(x)
@@ -334,7 +347,7 @@ func racesAnd(sc *engine.Scenario, sigs ...string) *engine.Scenario {
 		for _, f := range fs {
 			for _, s := range sigs {
 				if f.Sig == s {
-					out = append(out, &engine.Finding{Sig: "not-linearizable{listeners:" + s + "}", Msg: "shared listener: " + f.Msg})
+					out = append(out, &engine.Finding{Sig: prefix + s + "}", Msg: f.Msg})
 				}
 			}
 		}
